@@ -543,9 +543,11 @@ def merge_rules(run, r_bases, r_ids, ast):
                     if cls in ("loop", "trace"):
                         continue
                     t = astq.text(cn) if cn else "?"
-                    mem = {x["ref"]["name"] for x in astq.walk(cn) if x.get("k") == "DeclRefExpr"} if cn else set()
+                    dids = {x["ref"]["did"] for x in astq.walk(cn) if x.get("k") == "DeclRefExpr"} if cn else set()
                     c0 = astq.strip(cn) if cn else {}
-                    if c0.get("k") == "BinaryOperator" and c0.get("op") == "!=" and {"rtc", "rtb"} <= {m.split("::")[-1] for m in mem}:
+                    pushed = astq.strip(tb[0]["c"][1])["ref"]["did"]
+                    owner = {x["ref"]["did"] for x in astq.walk(tb[0]["c"][0]) if x.get("k") == "DeclRefExpr"}
+                    if c0.get("k") == "BinaryOperator" and c0.get("op") == "!=" and pushed in dids and (owner & dids):
                         continue        # the improper base (the class itself)
                     if c0.get("k") == "UnaryOperator" and c0.get("op") == "!" and blk.get("termk") == "IfStmt" and astq.strip(c0["c"][0]).get("k") == "DeclRefExpr" \
                             and astq.strip(c0["c"][0])["ref"]["did"] == astq.strip(tb[0]["c"][1])["ref"]["did"]:
@@ -1131,7 +1133,14 @@ def bias_rules(run, rule, ast):
                astq.strip(n["c"][0]).get("op") == "*" and any(x.get("k") == "MemberExpr" and x.get("member") == "static_vptr" for x in astq.walk(n["c"][0]))]
         forms = [astq.affine(n["c"][1], {}, _sym_bias) for n in asg]
         main = [a for a in forms if a is not None and "first_slot" in a]
-        ok = len(main) == 1 and main[0] == {"v:gv_iter": 1, "first_slot": -1} and all(a in ({"v:gv_iter": 1}, {"v:gv_iter": 1, "first_slot": -1}) for a in forms)
+        def cursor_minus_bias(a):
+            vs = [k for k in a if str(k).startswith("v:")]
+            return len(vs) == 1 and a == {vs[0]: 1, "first_slot": -1}
+
+        def cursor_only(a):
+            vs = [k for k in a if str(k).startswith("v:")]
+            return len(vs) == 1 and a == {vs[0]: 1}
+        ok = len(main) == 1 and cursor_minus_bias(main[0]) and all(a is not None and (cursor_only(a) or cursor_minus_bias(a)) for a in forms)
         run.instance(rule, "%s: static v-table pointer = table start - first_slot" % short(f), (f["file"], asg[0]["l"] if asg else f["line"]), ok=ok)
         if not ok:
             run.violation(rule, "compiler::install_gv|vptr-bias", "the class's static v-table pointer is set to %s (expected the table start minus first_slot)" % [astq.aff_show(a) for a in forms], (f["file"], asg[0]["l"] if asg else f["line"]))
@@ -1147,7 +1156,7 @@ def bias_rules(run, rule, ast):
         asg = [n for n in astq.walk(f["body"]) if n.get("k") == "BinaryOperator" and n.get("op") == "=" and astq.strip(n["c"][0]).get("k") == "UnaryOperator" and
                any(x.get("k") == "MemberExpr" and x.get("member") == "static_vptr" for x in astq.walk(n["c"][0]))]
         forms = [astq.affine(n["c"][1], {}, _sym_bias) for n in asg]
-        ok = len(forms) == 1 and forms[0] in ({"v:decode_iter": 1, "v:first_slot": -1}, {"v:decode_iter": 1, "first_slot": -1})
+        ok = len(forms) == 1 and forms[0] is not None and len(forms[0]) == 2 and sorted(forms[0].values()) == [-1, 1] and all(str(k).startswith("v:") or k == "first_slot" for k in forms[0])
         run.instance(rule, "%s: decoded static v-table pointer = table start - first slot" % short(f)[:70], (f["file"], asg[0]["l"] if asg else f["line"]), ok=ok)
         if not ok:
             run.violation(rule, "decode_dispatch_data|vptr-bias", "the decoder sets the static v-table pointer to %s" % [astq.aff_show(a) for a in forms], (f["file"], asg[0]["l"] if asg else f["line"]))
@@ -1193,8 +1202,8 @@ def size_rules(run, rule, ast):
             if n.get("k") != "BinaryOperator" or n.get("op") != "=":
                 return False
             l = astq.strip(n["c"][0])
-            return l.get("k") == "UnaryOperator" and l.get("op") == "*" and any(x.get("k") == "UnaryOperator" and x.get("op") == "++" for x in astq.walk(l)) and any(
-                x.get("k") == "DeclRefExpr" and x["ref"]["name"].endswith("gv_iter") for x in astq.walk(l))
+            return l.get("k") == "UnaryOperator" and l.get("op") == "*" and any(x.get("k") == "UnaryOperator" and x.get("op") == "++" and astq.strip(x["c"][0]).get("k") == "DeclRefExpr"
+                                                                                and astq.strip(x["c"][0])["ref"].get("storage") == "local" for x in astq.walk(l))
         ps = astq.enum_paths(el[0]["body"], lambda c: None, is_cell_write)
         counts = sorted({len(p["events"]) for p in ps})
         ok = counts == [1]
@@ -1249,8 +1258,8 @@ def reserve_rules(run, rule, ast):
                     loops = _enclosing(parent, c, ("CXXForRangeStmt",))
                     if any(any(y.get("k") == "DeclRefExpr" and y["ref"]["did"] == lp["var"]["did"] for y in astq.walk(c0)) for lp in loops):
                         continue                               # the class itself among its covariant classes
-                if _enclosing(parent, cn, ("ForStmt",)) and any(y.get("k") == "DeclRefExpr" and "unavailable" in y["ref"]["name"] for y in astq.walk(cn)):
-                    continue                                   # search for the first free slot
+                if _enclosing(parent, cn, ("ForStmt",)) and not any(y.get("k") == "MemberExpr" for y in astq.walk(cn) if y.get("member") in ("mark", "direct_bases", "direct_derived", "transitive_bases", "covariant_classes")):
+                    continue                                   # search for the first free slot (a plain for loop over a local bit set)
                 if c0.get("k") == "CXXOperatorCallExpr" and c0.get("oop") == "[]" or (c0.get("k") == "UnaryOperator" and any(y.get("k") == "CXXOperatorCallExpr" and y.get("oop") == "[]" for y in astq.walk(c0)) and _enclosing(parent, cn, ("ForStmt",))):
                     continue
                 bad.append(astq.text(cn))
@@ -1269,7 +1278,7 @@ def applicable_rules(run, rule, ast):
     for f in by_name(ast, "build_dispatch_tables"):
         byid, parent = astq.index_nodes(f)
         sets = [n for n in astq.walk(f["body"]) if (n.get("k") == "BinaryOperator" and n.get("op") == "=" or (n.get("k") == "CXXOperatorCallExpr" and n.get("oop") == "=")) and
-                any(x.get("k") == "DeclRefExpr" and x["ref"]["name"].endswith("mask") for x in astq.walk(n["c"][0] if n.get("k") == "BinaryOperator" else n["c"][1]))
+                any(x.get("k") == "DeclRefExpr" and x["ref"].get("storage") == "local" and "dynamic_bitset" in (x.get("t") or "") for x in astq.walk(n["c"][0] if n.get("k") == "BinaryOperator" else n["c"][1]))
                 and any(x.get("k") == "CXXOperatorCallExpr" and x.get("oop") == "[]" for x in astq.walk(n["c"][0] if n.get("k") == "BinaryOperator" else n["c"][1]))]
         if len(sets) != 1:
             run.broken.append("%s: expected one assignment of a mask bit, found %d" % (short(f), len(sets)))
@@ -1355,7 +1364,7 @@ def table_rules(run, rule, ast):
                 idx = None
                 if rhs.get("k") == "CXXMemberCallExpr" and (rhs.get("callee") or "").endswith("::size"):
                     sub = [x for x in astq.walk(rhs["c"][0]) if x.get("k") == "CXXOperatorCallExpr" and x.get("oop") == "[]"]
-                    if sub and any(y.get("k") == "DeclRefExpr" and y["ref"]["name"].endswith("groups") for y in astq.walk(sub[0]["c"][1])):
+                    if sub and any(y.get("k") == "DeclRefExpr" and "std::vector<std::map<" in (y.get("t") or "") for y in astq.walk(sub[0]["c"][1])):
                         idx = astq.affine(sub[0]["c"][2], {dim: {"dim": 1}})
                 pushed = astq.strip(pushes[0]["c"][1])
                 svinit = None
@@ -1383,7 +1392,7 @@ def table_rules(run, rule, ast):
             for n in astq.walk(f["body"]):
                 if n.get("k") == "DeclStmt":
                     for d in n["decls"]:
-                        if d["name"] == "dims":
+                        if d.get("init") is not None and astq.strip(d["init"]).get("k") == "CXXMemberCallExpr" and (astq.strip(d["init"]).get("callee") or "").endswith("::arity"):
                             env[d["did"]] = {"dims": 1}
             dimv = astq.affine(a[1], env, lambda n: "dims" if (n.get("k") == "CXXMemberCallExpr" and (n.get("callee") or "").endswith("::arity")) else None)
             its = [x for x in astq.walk(a[2]) if x.get("k") == "CXXOperatorCallExpr" and x.get("oop") == "-"]
@@ -1400,7 +1409,7 @@ def table_rules(run, rule, ast):
         for n in astq.walk(f["body"]):
             if n.get("k") == "BinaryOperator" and n.get("op") == "=":
                 l = astq.strip(n["c"][0])
-                if l.get("k") == "MemberExpr" and l.get("member") in ("method_index", "vp_index", "group_index") and any(x.get("k") == "DeclRefExpr" and x["ref"]["name"] == "entry" for x in astq.walk(l)):
+                if l.get("k") == "MemberExpr" and l.get("member") in ("method_index", "vp_index", "group_index") and any(x.get("k") == "DeclRefExpr" and x["ref"].get("storage") == "local" for x in astq.walk(l)):
                     asg[l["member"]] = n
         oke = set(asg) == {"method_index", "vp_index", "group_index"}
         if oke:
@@ -1409,7 +1418,7 @@ def table_rules(run, rule, ast):
             loops = _enclosing(parent, asg["group_index"], ("CXXForRangeStmt", "ForStmt"))
             # group counter: declared in the dimension loop, incremented once per group of groups[dim]
             gl = [lp for lp in loops if lp.get("k") == "CXXForRangeStmt" and any(x.get("k") == "CXXOperatorCallExpr" and x.get("oop") == "[]" and any(
-                y.get("k") == "DeclRefExpr" and y["ref"]["name"].endswith("groups") for y in astq.walk(x)) for x in astq.walk(astq.strip(lp["range"])))]
+                y.get("k") == "DeclRefExpr" and "std::vector<std::map<" in (y.get("t") or "") for y in astq.walk(x)) for x in astq.walk(astq.strip(lp["range"])))]
             dl = [lp for lp in loops if lp.get("k") == "ForStmt"]
             oke = bool(gl) and bool(dl) and gi.get("k") == "DeclRefExpr" and vi.get("k") == "DeclRefExpr" and dl[0].get("init") and vi["ref"]["did"] == dl[0]["init"]["decls"][0]["did"]
             if oke:
@@ -1444,7 +1453,7 @@ def table_rules(run, rule, ast):
                             if d["did"] == mk["ref"]["did"] and d.get("init") is not None:
                                 i0 = [x for x in astq.walk(d["init"]) if x.get("k") == "CXXOperatorCallExpr" and x.get("oop") == "&"]
                                 mk_ok = bool(i0) and any(y.get("k") == "DeclRefExpr" and y["ref"]["did"] == pd.get("candidates") for y in astq.walk(i0[0])) and any(
-                                    y.get("k") == "DeclRefExpr" and y["ref"]["name"] == "group_mask" for y in astq.walk(i0[0]))
+                                    y.get("k") == "DeclRefExpr" and y["ref"].get("dk") == "Binding" for y in astq.walk(i0[0]))
             ifs = [n for n in astq.walk(f["body"]) if n.get("k") == "IfStmt" and _in_subtree(n.get("else") or {"k": "x", "id": -5}, rec[0])]
             zero = bool(ifs) and astq.strip(ifs[0]["cond"]).get("k") == "BinaryOperator" and astq.strip(ifs[0]["cond"]).get("op") == "==" and astq.affine(astq.strip(ifs[0]["cond"])["c"][0], {pd.get("dim"): {"dim": 1}}) == {"dim": 1} and astq.affine(astq.strip(ifs[0]["cond"])["c"][1]) == {}
             ok = dimv == {"dim": 1, 1: -1} and it_ok and mk_ok and zero
@@ -1462,7 +1471,8 @@ def table_rules(run, rule, ast):
             if n.get("k") != "BinaryOperator" or n.get("op") != "=":
                 return False
             l = astq.strip(n["c"][0])
-            return l.get("k") == "UnaryOperator" and l.get("op") == "*" and any(x.get("k") == "DeclRefExpr" and x["ref"]["name"].endswith("gv_iter") for x in astq.walk(l))
+            return l.get("k") == "UnaryOperator" and l.get("op") == "*" and any(x.get("k") == "UnaryOperator" and x.get("op") == "++" and astq.strip(x["c"][0]).get("k") == "DeclRefExpr"
+                                                                                and astq.strip(x["c"][0])["ref"].get("storage") == "local" for x in astq.walk(l))
         res = {}
         for uni in (True, False):
             for first in (True, False):
@@ -1501,7 +1511,7 @@ def table_rules(run, rule, ast):
                       for n in astq.walk(el[0]["body"]) if n.get("k") == "DeclStmt" for d in n["decls"])
         # and the table base recorded before the cells are copied
         base_ok = any(n.get("k") == "BinaryOperator" and n.get("op") == "=" and astq.strip(n["c"][0]).get("k") == "MemberExpr" and astq.strip(n["c"][0]).get("member") == "gv_dispatch_table" and
-                      astq.strip(n["c"][1]).get("k") == "DeclRefExpr" and astq.strip(n["c"][1])["ref"]["name"].endswith("gv_iter") for n in astq.walk(f["body"]))
+                      astq.strip(n["c"][1]).get("k") == "DeclRefExpr" and astq.strip(n["c"][1])["ref"].get("storage") == "local" for n in astq.walk(f["body"]))
         ok = ok and spec_ok and base_ok
         run.instance(rule, "%s: v-table cell = definition pointer (uni-method), table base + group (first parameter), group number (other parameters)" % short(f), (f["file"], el[0]["l"]), ok=ok,
                      detail={str(k): sorted(v) for k, v in res.items()})
